@@ -355,6 +355,13 @@ def handle (line : String) : String :=
       | .ok g => s!"G {g.pts.length} " ++ " ".intercalate (g.pts.map showV) ++ s!" N {showV g.plane.n} VALID {showBool g.validB}"
       | .error e => "err " ++ showCErr e
     | none => "bad-op"
+  | "mkGr" :: rest =>      -- ConvexPolygon(points, reverse=True)
+    match (do let k ← nat; many k v3 : P _).run rest with
+    | some (pts, _) =>
+      match Polygon.mk? pts true with
+      | .ok g => s!"G {g.pts.length} " ++ " ".intercalate (g.pts.map showV) ++ s!" N {showV g.plane.n} VALID {showBool g.validB}"
+      | .error e => "err " ++ showCErr e
+    | none => "bad-op"
   | "heap" :: rest => heapRun rest
   | "tol" :: rest =>
     match tolOps rest with
